@@ -44,6 +44,56 @@ theorem walk_links_eq_spec {P : Prims} {V : St → List Val} {X : St → Prop} (
   rw [this.1.1.links, linksFold_eq]
   rfl
 
+/-! ### templates without 235YYY have no cancel times -/
+
+mutual
+theorem cancelsL_noCancel (P : Prims) : (t : List Desc) → noCancelL t = true → ∀ s, cancelsL P t s = []
+  | [], _, s => cancelsL_nil P s
+  | d :: ds, h, s => by
+    simp only [noCancelL, Bool.and_eq_true] at h
+    have h1 := cancelsD_noCancel P d h.1
+    have h2 := cancelsL_noCancel P ds h.2
+    have c1 : cancels1 P d s = [] := by
+      rw [cancels1_eq]
+      cases entryOf P d s with
+      | none => rfl
+      | some s1 => exact h1 s1
+    rw [cancelsL_cons, c1]
+    cases walk1 P d s with
+    | error _ => rfl
+    | ok s' => exact h2 s'
+
+theorem cancelsD_noCancel (P : Prims) : (d : Desc) → noCancelD d = true → ∀ s, cancelsD P d s = []
+  | .op id, h, s => by
+    simp only [noCancelD, bne_iff_ne, ne_eq] at h
+    simp only [cancelsD, if_neg h]
+  | .fixedRep id ms, h, s => by
+    simp only [noCancelD] at h
+    simp only [cancelsD]
+    exact ghostIter_nil _ _ (cancelsL_noCancel P ms h) _ _
+  | .delayedRep id f ms, h, s => by
+    simp only [noCancelD] at h
+    have ih := cancelsL_noCancel P ms h
+    cases f with
+    | elem fe =>
+      simp only [cancelsD]
+      cases elementDescriptor P (.plain fe) fe s with
+      | error _ => rfl
+      | ok s1 =>
+        simp only
+        cases P.factorValue s1 >>= factorCount with
+        | error _ => rfl
+        | ok n => exact ghostIter_nil _ _ ih _ _
+    | _ => rfl
+  | .seq id ms, h, s => by
+    simp only [noCancelD] at h
+    simp only [cancelsD]
+    exact cancelsL_noCancel P ms h s
+  | .elem _, _, _ => rfl
+  | .undefElem _, _, _ => rfl
+  | .undefSeq _, _, _ => rfl
+end
+
 /-! ### the decoder's primitives record -/
 
 /-- the values recorded so far, of the first subset (the one the bit-maps are taken from) -/
